@@ -100,7 +100,10 @@ def main(argv):
         root, scratch, d = procs.worker_dirs()
     try:
         with open(worlds_path) as f, open(out_path, "w") as out:
+            parent = int(os.environ.get("BBSIM_C19_PARENT", "0"))
             for line in f:
+                if parent and os.getppid() != parent:
+                    return 3          # the controller is gone: do not linger as an orphan
                 w = json.loads(line)
                 try:
                     r = run_world(bb, w, root, scratch)
